@@ -134,7 +134,7 @@ var MutationOperators = []string{
 	"conflict-different-type", "unknown-directive", "misplaced-directive", "duplicate-directive", "directive-missing-argument",
 	"second-subscription-root", "subscription-typename-root", "duplicate-input-field", "unknown-input-field",
 	"missing-required-input-field", "null-for-non-null-argument", "variable-default-wrong-type", "oneof-two-members", "oneof-null-member",
-	"variable-type-mismatch", "conflict-three-selections", "misplaced-custom-directive",
+	"variable-type-mismatch", "conflict-three-selections", "misplaced-custom-directive", "variable-list-item-weaker",
 }
 
 // Mutate applies operator op to a clone of doc (first operation = the one executed, named opName
@@ -458,6 +458,65 @@ func Mutate(r *rand.Rand, s *Schema, doc *Doc, opName string, vars map[string]an
 				}
 			}
 		}
+	case "variable-list-item-weaker":
+		// a variable whose list ITEMS are nullable used where the items are non-null ([T] at a [T!]
+		// position, at any list depth): invalid whatever defaults exist (a default only excuses the
+		// nullability of the position itself, never of the items below a list wrapper)
+		m.Rule = "VariablesInAllowedPosition"
+		type site struct {
+			fs fieldSite
+			ad *Arg
+		}
+		var sites, preferred []site
+		for _, fs := range w.fields {
+			if fs.f.Def == nil {
+				continue
+			}
+			for _, ad := range fs.f.Def.Args {
+				for t := ad.Type; t != nil && t.Elem != nil; t = t.Elem {
+					if t.Elem.NonNull {
+						sites = append(sites, site{fs, ad})
+						if ad.Default != nil {
+							preferred = append(preferred, site{fs, ad})
+						}
+						break
+					}
+				}
+			}
+		}
+		if len(preferred) > 0 && r.IntN(3) != 0 {
+			sites = preferred
+		}
+		if len(sites) == 0 {
+			return nil, m, false
+		}
+		u := sites[r.IntN(len(sites))]
+		m.Site, m.UnderRemoved = siteName(u.fs.depth, u.fs.inFrag), u.fs.removed
+		// the argument's type with every list item made nullable
+		var weaken func(t *TypeRef, top bool) *TypeRef
+		weaken = func(t *TypeRef, top bool) *TypeRef {
+			c := *t
+			if !top {
+				c.NonNull = false
+			}
+			if t.Elem != nil {
+				c.Elem = weaken(t.Elem, false)
+			}
+			return &c
+		}
+		vt := weaken(u.ad.Type, true)
+		vd := &VarDef{Name: "zzWeakItems", Type: vt}
+		if vt.NonNull {
+			vd.Default = &Val{Kind: VList}
+		}
+		op.Vars = append(op.Vars, vd)
+		var args []*ArgVal
+		for _, a := range u.fs.f.Args {
+			if a.Name != u.ad.Name {
+				args = append(args, a)
+			}
+		}
+		u.fs.f.Args = append(args, &ArgVal{Name: u.ad.Name, Val: &Val{Kind: VVar, Str: vd.Name}})
 	case "unknown-fragment":
 		m.Rule = "KnownFragmentNames"
 		ss, ok := pickSet(func(ss setSite) bool { return true })
